@@ -1,75 +1,207 @@
 import GlueVerif.Lemmas.C06
+import GlueVerif.Lemmas.C06Delay
+import GlueVerif.Lemmas.C06Immediate
 /-!
 # C06 — every dataset in a collection carries exactly one subset per subset group
 
-Property theorems only; helper lemmas live in `GlueVerif.Lemmas.C06`.  Every statement is about the
-executable state machine in `GlueVerif.Model.Collection` that the driver `Drivers/C06.lean` runs
-against a real `DataCollection` on every check: `Impl.step` (= `step true`) models the code with
-`fix: F3-remove-data-detach`, `Old.step` (= `step false`) the code before it.  `specOk` is the very
-predicate the driver evaluates on the *implementation's* snapshots.
+Property theorems only; helper lemmas live in `GlueVerif.Lemmas.C06` / `GlueVerif.Lemmas.C06Delay`.
+Every statement is about the executable state machines that the driver `Drivers/C06.lean` runs
+against a real `DataCollection` (with its `Hub`) on every check.
 
-Operations (`Op`): `append d`, `extend ds`, `insert i d`, `remove d`, `clear`, `newGroup`,
-`removeGroup g`, `setState/setLabel/setStyle g v`, `merge ds`, `setItem key d` (`dc[key] = d`),
-`restore` (session save + load), and `doCmd add d` / `undo` / `redo`: the `AddData` / `RemoveData`
-commands run, undone and redone through a `CommandStack`, as coded after
-`fix: F4b-add-remove-data-undo` (the command objects remember whether they changed the collection
-and where the dataset was; `RemoveData.undo` is `insert(index, data)`, `AddData.undo` is `remove`,
-each only if the command had an effect; command.py).  Any other operation may come between a
-command and its undo, so the recorded flag / position may be stale: the invariant holds anyway.
+**The model with message delivery** (`GlueVerif.Model.CollectionDelay`, `Delay.Impl.step`): the
+collection together with the hub's delay state (`depth`, `queue`).  A history (`DOp`) is any list
+of collection operations (`Op`: `append d`, `extend ds`, `insert i d`, `remove d`, `clear`,
+`newGroup`, `removeGroup g`, `setState/setLabel/setStyle g v`, `merge ds`, `setItem key d`,
+`restore`, `doCmd add d` / `undo` / `redo` — as coded after `fix: F3-remove-data-detach`,
+`fix: F4b-add-remove-data-undo` and `fix: F26-add-data-idempotent`) and of `delayOpen` / `delayClose`
+steps, i.e. `with hub.delay_callbacks():` blocks around arbitrary sub-histories, nested to any depth.
+While a block is open `insert` / `remove` only queue their message; the `SubsetGroup` handlers run
+when the outermost block closes, once per message, in order (the hub semantics `C07.impl_refines_spec`
+proves for `hub.py`).  So the property — `QInv`, `specOk` — is stated at **quiescent** states (no
+block open); inside blocks the weaker `InvP` relates the state to the queue.  `specOk` is the very
+predicate the driver evaluates on the *implementation's* snapshots at quiescent points.
+
+**The immediate-delivery model** (`GlueVerif.Model.Collection`, `Impl.step`) is the special case
+without delay blocks; it is what C18 builds on.  Its theorems are kept (`immediate_*`), and
+`immediate_agrees` shows that it is exactly the model above on histories without delay steps.
 -/
 namespace GlueVerif.C06
-open GlueVerif.Collection
+open GlueVerif.Collection GlueVerif.Collection.Delay
 
-/-- A fresh collection next to `n` fresh datasets satisfies the invariant. -/
-theorem inv_init (n colors : Nat) : Inv (init n colors) := Lemmas.C06.inv_init n colors
+/-! ## histories with delay blocks -/
 
-/-- **Every operation preserves the invariant** — from *any* state that satisfies it, whatever the
-argument (datasets in or out of the collection, live or removed groups, ids that do not exist). -/
-theorem step_inv (st : State) (op : Op) (h : Inv st) : Inv (Impl.step st op) :=
-  Lemmas.C06.inv_step st op h
+/-- A fresh collection (no block open, nothing queued) next to `n` fresh datasets satisfies the
+invariant. -/
+theorem inv_init (n colors : Nat) : DInv (Delay.init n colors) := Lemmas.C06Delay.dinv_init n colors
 
-/-- **The invariant holds after every history**: any list of operations, of any length, over any
-number of datasets and groups (induction over the op list; no bound). -/
-theorem reachable_inv (n colors : Nat) (ops : List Op) : Inv (Impl.run (init n colors) ops) :=
-  Lemmas.C06.inv_run ops _ (Lemmas.C06.inv_init n colors)
+/-- **Every step preserves the invariant** — a collection operation with any argument at any
+nesting depth (its messages are delivered at once or queued), opening a block, closing an inner
+block, closing the outermost block (the queue is flushed) — from *any* state that satisfies it. -/
+theorem step_inv (s : DState) (op : DOp) (h : DInv s) : DInv (Delay.Impl.step s op) :=
+  Lemmas.C06Delay.dinv_step h op
 
-/-- The invariant implies the order-independent property predicate `specOk` that the driver
-evaluates: exactly one subset per live group on each dataset of the collection and no others;
-each live group lists exactly those; members read the group's state / label / style; removed
-datasets carry nothing; removed groups are unsubscribed and what they still list is attached
+/-- **The invariant holds at every point of every history**: any list of operations and
+arbitrarily nested delay blocks, of any length, over any number of datasets and groups: the
+pending invariant `InvP` relates the bookkeeping to the queue, and the queue is empty whenever no
+block is open. -/
+theorem reachable_inv (n colors : Nat) (ops : List DOp) :
+    DInv (Delay.Impl.run (Delay.init n colors) ops) :=
+  Lemmas.C06Delay.dinv_run ops _ (Lemmas.C06Delay.dinv_init n colors)
+
+/-- Delivering the oldest queued message to the group handlers re-establishes the pending
+invariant for the rest of the queue … -/
+theorem deliver_inv (st : State) (m : QMsg) (q : List QMsg) (h : InvP st (m :: q)) :
+    InvP (Delay.deliver true m st) q := Lemmas.C06Delay.invP_deliver h
+
+/-- … hence **closing the outermost block restores the property**: whatever was queued, flushing
+it handler by handler leads to a state that satisfies the quiescent invariant (induction over the
+queue). -/
+theorem close_restores_inv (st : State) (q : List QMsg) (h : InvP st q) : QInv (Delay.flush true q st) :=
+  Lemmas.C06Delay.qinv_of_invP (Lemmas.C06Delay.invP_flush q st h)
+
+/-- Whether a block is open after a history can be read off the history: the depth is the number
+of `delayOpen` minus the number of `delayClose` steps (`netDepth`).  In particular every history
+whose blocks are all closed ends in a quiescent state. -/
+theorem depth_of_history (n colors : Nat) (ops : List DOp) :
+    (Delay.Impl.run (Delay.init n colors) ops).depth = netDepth 0 ops :=
+  Lemmas.C06Delay.depth_run ops _ (Lemmas.C06Delay.dinv_init n colors)
+
+/-- **At every quiescent point of every history the quiescent invariant holds**: each dataset of
+the collection carries one subset per live group (`dataGroups`), each live group lists one subset per
+dataset of the collection (`groupDatas`), attachment and listing agree, datasets outside the
+collection carry nothing, exactly the live groups are subscribed. -/
+theorem quiescent_inv (n colors : Nat) (ops : List DOp) (hq : netDepth 0 ops = 0) :
+    QInv (Delay.Impl.run (Delay.init n colors) ops).col := by
+  have h := reachable_inv n colors ops
+  have h0 : (Delay.Impl.run (Delay.init n colors) ops).depth = 0 := (depth_of_history n colors ops).trans hq
+  have := h.pending
+  rw [h.idle h0] at this
+  exact Lemmas.C06Delay.qinv_of_invP this
+
+/-- The quiescent invariant implies the order-independent property predicate `specOk` that the
+driver evaluates: exactly one subset per live group on each dataset of the collection and no
+others; each live group lists exactly those; members read the group's state / label / style;
+removed datasets carry nothing; removed groups are unsubscribed and what they still list is attached
 nowhere. -/
-theorem spec_of_inv (st : State) (h : Inv st) : specOk st (modelReads st) = true :=
-  Lemmas.C06.specOk_of_inv st h
+theorem spec_of_inv (st : State) (h : QInv st) : specOk st (modelReads st) = true :=
+  Lemmas.C06Delay.specOk_of_qinv st h
 
-/-- **C06 for the model**: after every history the property predicate holds (this is the `implok`
-column of the driver: it can never be `F`). -/
-theorem reachable_spec (n colors : Nat) (ops : List Op) :
-    specOk (Impl.run (init n colors) ops) (modelReads (Impl.run (init n colors) ops)) = true :=
-  spec_of_inv _ (reachable_inv n colors ops)
+/-- **C06 for the model**: at every quiescent point of every history — with arbitrary delay blocks
+before it — the property predicate holds (this is the `implok` column of the driver: it can never
+be `F`). -/
+theorem reachable_spec (n colors : Nat) (ops : List DOp) (hq : netDepth 0 ops = 0) :
+    specOk (Delay.Impl.run (Delay.init n colors) ops).col
+      (modelReads (Delay.Impl.run (Delay.init n colors) ops).col) = true :=
+  spec_of_inv _ (quiescent_inv n colors ops hq)
 
-/-- Readable corollary, with the order the code actually maintains: in every reachable state each
-dataset of the collection carries its subsets in group order, each live group lists exactly one
-subset per dataset of the collection (a permutation of the collection: `insert` — hence the undo of
-`RemoveData` — places a dataset anywhere while its new subset goes to the end of `group.subsets`;
-see the example below), and a dataset outside the collection carries none. -/
-theorem reachable_ordered (n colors : Nat) (ops : List Op) :
-    let st := Impl.run (init n colors) ops
-    (∀ d ∈ st.datasets, (st.dsubs d).map (·.group) = st.groups) ∧
+/-- Readable corollary: at every quiescent point each dataset of the collection carries exactly
+one subset per live group and each live group lists exactly one subset per dataset of the
+collection — as permutations: `insert` (hence the undo of `RemoveData`) places a dataset anywhere
+while its new subset goes to the end of `group.subsets`, and a group created inside a delay block
+attaches its subsets before the queued Add messages reach the older groups (examples below) — and
+a dataset outside the collection carries none. -/
+theorem reachable_ordered (n colors : Nat) (ops : List DOp) (hq : netDepth 0 ops = 0) :
+    let st := (Delay.Impl.run (Delay.init n colors) ops).col
+    (∀ d ∈ st.datasets, ((st.dsubs d).map (·.group)).Perm st.groups) ∧
     (∀ g ∈ st.groups, ((st.gsubs g).map (·.data)).Perm (st.datasets.map some)) ∧
     (∀ d, d ∉ st.datasets → st.dsubs d = []) := by
   intro st
-  have h := reachable_inv n colors ops
+  have h := quiescent_inv n colors ops hq
   exact ⟨h.dataGroups, h.groupDatas, h.removedEmpty⟩
 
-/-- In every reachable state a session save / restore round trip leaves the whole bookkeeping
+/-- At every quiescent point a session save / restore round trip leaves the whole bookkeeping
 (collection, attachment lists, group lists, subscriptions, counters) exactly as it was; only the
 command stack starts empty in the restored session. -/
-theorem restore_roundtrip (n colors : Nat) (ops : List Op) :
-    restore (Impl.run (init n colors) ops) =
-      { Impl.run (init n colors) ops with done := [], undone := [] } :=
-  Lemmas.C06.restore_eq _ (reachable_inv n colors ops)
+theorem restore_roundtrip (n colors : Nat) (ops : List DOp) (hq : netDepth 0 ops = 0) :
+    restore (Delay.Impl.run (Delay.init n colors) ops).col =
+      { (Delay.Impl.run (Delay.init n colors) ops).col with done := [], undone := [] } := by
+  have h := reachable_inv n colors ops
+  have h0 : (Delay.Impl.run (Delay.init n colors) ops).depth = 0 := (depth_of_history n colors ops).trans hq
+  have := h.pending
+  rw [h.idle h0] at this
+  exact Lemmas.C06Delay.restore_eq' _ this
 
-/-! ### the invariant is not vacuous -/
+/-! ### the invariants are not vacuous, and what happens inside a block -/
+
+/-- batched appends: inside the block the datasets are in the collection without subsets and the
+two Add messages are queued; after the close each dataset has its subset of the group. -/
+example :
+    let inside := Delay.Impl.run (Delay.init 3 7) [.op .newGroup, .delayOpen, .op (.append 0), .op (.append 1)]
+    let after := Delay.Impl.step inside .delayClose
+    inside.col.datasets = [0, 1] ∧ inside.col.dsubs 0 = [] ∧ inside.col.dsubs 1 = [] ∧
+    inside.depth = 1 ∧ inside.queue = [.add 0, .add 1] ∧
+    specOk inside.col (modelReads inside.col) = false ∧
+    after.depth = 0 ∧ after.queue = [] ∧
+    after.col.dsubs 0 = [⟨0, some 0, 0⟩] ∧ after.col.dsubs 1 = [⟨1, some 1, 0⟩] ∧
+    after.col.gsubs 0 = [⟨0, some 0, 0⟩, ⟨1, some 1, 0⟩] ∧
+    specOk after.col (modelReads after.col) = true := by decide
+
+/-- nested blocks: the inner close delivers nothing; append + remove of the same dataset inside a
+block cancel out at the flush (the subset is created and deleted again). -/
+example :
+    let inner := Delay.Impl.run (Delay.init 3 7)
+      [.op .newGroup, .delayOpen, .op (.append 0), .delayOpen, .op (.append 1), .op (.remove 0), .delayClose]
+    let after := Delay.Impl.step inner .delayClose
+    inner.depth = 1 ∧ inner.queue = [.add 0, .add 1, .del 0] ∧ inner.col.datasets = [1] ∧
+    inner.col.dsubs 1 = [] ∧
+    after.depth = 0 ∧ after.col.dsubs 0 = [] ∧ after.col.dsubs 1 = [⟨1, some 1, 0⟩] ∧
+    after.col.gsubs 0 = [⟨1, some 1, 0⟩] := by decide
+
+/-- a group created inside a block after an append in the same block: `register` attaches the new
+group's subset first, the queued Add message reaches the older group at the close — dataset 1
+carries its subsets in the order (group 1, group 0), one each; the new group's handler returns early
+(`fix: F26-add-data-idempotent`). -/
+example :
+    let st := (Delay.Impl.run (Delay.init 3 7)
+      [.op (.append 0), .op .newGroup, .delayOpen, .op (.append 1), .op .newGroup, .delayClose]).col
+    st.groups = [0, 1] ∧ st.dsubs 1 = [⟨2, some 1, 1⟩, ⟨3, some 1, 0⟩] ∧
+    st.gsubs 1 = [⟨1, some 0, 1⟩, ⟨2, some 1, 1⟩] ∧ specOk st (modelReads st) = true := by decide
+
+/-- everything at once inside nested blocks: merge, group removal and creation, `dc[key] = data`,
+undo — quiescent again after the closes, property predicate holds. -/
+example :
+    let s := Delay.Impl.run (Delay.init 3 7)
+      [.op (.extend [0, 1]), .op .newGroup, .delayOpen, .op (.merge [0, 1]), .op (.removeGroup 0), .op .newGroup,
+       .delayOpen, .op (.setItem 0 2), .op (.doCmd false 3), .delayClose, .op .undo, .delayClose]
+    s.depth = 0 ∧ s.queue = [] ∧ s.col.groups = [1] ∧ s.col.datasets = [2] ∧ (s.col.dsubs 2).length = 1 ∧
+    specOk s.col (modelReads s.col) = true := by decide
+
+/-! ### witness: the code before `fix: F26-add-data-idempotent` breaks the property (F26) -/
+
+/-- Before the fix a group created inside a delay block *after* a dataset was appended inside the
+same block gives that dataset two subsets: `register` creates one (the dataset is in the
+collection), and the queued `DataCollectionAddMessage` is delivered to the new group as well when
+the block closes.  The Spec rejects the state; the fixed code yields exactly one. -/
+theorem unguarded_group_in_block_duplicates :
+    let ops := [DOp.delayOpen, .op (.append 0), .op .newGroup, .delayClose]
+    (((Delay.Unguarded.run (Delay.init 1 7) ops).col.dsubs 0).filter (fun s => s.group == 0)).length = 2 ∧
+    specOk (Delay.Unguarded.run (Delay.init 1 7) ops).col
+      (modelReads (Delay.Unguarded.run (Delay.init 1 7) ops).col) = false ∧
+    (((Delay.Impl.run (Delay.init 1 7) ops).col.dsubs 0).filter (fun s => s.group == 0)).length = 1 := by decide
+
+/-! ## the immediate-delivery model (no delay blocks; the model C18 builds on) -/
+
+/-- Every operation preserves the ordered invariant `Inv` of the immediate-delivery model. -/
+theorem immediate_step_inv (st : State) (op : Op) (h : Inv st) : Inv (Impl.step st op) :=
+  Lemmas.C06.inv_step st op h
+
+/-- `Inv` holds after every history without delay blocks. -/
+theorem immediate_reachable_inv (n colors : Nat) (ops : List Op) : Inv (Impl.run (init n colors) ops) :=
+  Lemmas.C06.inv_run ops _ (Lemmas.C06.inv_init n colors)
+
+/-- **The immediate-delivery model is the delay model on histories without delay steps**: every
+broadcast is delivered at once, the blocks inside `new_subset_group` / `remove_subset_group` flush
+an empty queue, the guard of `fix: F26-add-data-idempotent` never fires — the hub stays idle and the
+collection states coincide, for every history. -/
+theorem immediate_agrees (n colors : Nat) (ops : List Op) :
+    Delay.Impl.run (Delay.init n colors) (ops.map DOp.op) =
+      { col := Impl.run (init n colors) ops, depth := 0, queue := [] } :=
+  Lemmas.C06Immediate.run_idle ops _ (Lemmas.C06.inv_init n colors)
+
+/-- `Inv` (which also fixes the order of `data.subsets`) implies the order-free `QInv`. -/
+theorem immediate_inv_quiescent (st : State) (h : Inv st) : QInv st := Lemmas.C06Delay.qinv_of_inv h
+
+/-! ### the immediate-delivery model: non-vacuity (unchanged histories) -/
 
 /-- a history with a re-append, two groups and a removed group: dataset 1 ends with one subset for
 the live group 1 only; group 1 lists one subset per dataset. -/
